@@ -61,6 +61,13 @@ L2(t) == \A i \in Idx(t.ev, "Refused") : \A u \in 1..t.nups :
             Cardinality({ k \in Idx(t.ev, "Open") : k < i /\ t.ev[k].u = u /\
                            ~\E j \in Idx(t.ev, "End") : j < i /\ t.ev[j].c = t.ev[k].c }) >= t.max
 
+\* the connection counters equal the proxied connections that are open (sampled at rest):
+\* every peer of upstream u counts the connections that reached u and have not ended
+OpenOn(t, u, i) == Cardinality({ k \in Idx(t.ev, "Open") : k < i /\ t.ev[k].u = u /\
+                                  ~\E j \in Idx(t.ev, "End") : j < i /\ t.ev[j].c = t.ev[k].c })
+L3(t) == \A i \in Idx(t.ev, "CSample") : \A u \in DOMAIN t.ev[i].conns : \A p \in DOMAIN t.ev[i].conns[u] :
+            t.ev[i].conns[u][p] = OpenOn(t, u, i)
+
 \* ---- active ----
 LastChange(t, i) == LET S == { j \in 1..(i-1) : IsE(t.ev[j], "Down") \/ IsE(t.ev[j], "Up") } IN
                     IF S = {} THEN 0 ELSE CHOOSE j \in S : \A k \in S : k <= j
@@ -80,6 +87,7 @@ HealthViolations(t) ==
     [] t.kind = "limit" ->
          (IF L1(t) THEN {} ELSE {"L1 an upstream at max_connections was given another connection"})
          \cup (IF L2(t) THEN {} ELSE {"L2 a connection was refused although an upstream was below its limit"})
+         \cup (IF L3(t) THEN {} ELSE {"L3 connection counters differ from the proxied connections that are open (leaked or negative count)"})
     [] t.kind = "active" ->
          (IF A1(t) THEN {} ELSE {"A1 active health check did not mark the peer down while refusing / up again once accepting"})
     [] OTHER -> {"unknown trace kind"}
